@@ -116,6 +116,9 @@ type vPipeCase struct {
 	// Gaps: frames the source skipped (lost data) before block k: the block's first frame number jumps by so many. Only used where
 	// no oracle looks at frame numbers (crash-only runs); empty elsewhere.
 	Gaps []int `json:"gaps,omitempty"`
+	// Reports: before the blocks with these numbers the status reports are computed as the RPC layer does after a client's request
+	// (full trigger state, group-trigger state, writing state): reading the state must not change what happens to the data
+	Reports []int `json:"reports,omitempty"`
 }
 
 func vNoise(seed, i int) int {
@@ -404,6 +407,13 @@ func vRunPipe(c *vPipeCase, observe func(tr *vTrace, k int, recs []*DataRecord) 
 	hi := 0
 	gapSum := int64(0)
 	for k, blen := range c.Blocks {
+		for _, rk := range c.Reports {
+			if rk == k {
+				ds.ComputeFullTriggerState()
+				ds.ComputeGroupTriggerState()
+				ds.ComputeWritingState()
+			}
+		}
 		for ; hi < len(c.Hist) && c.Hist[hi].At <= k; hi++ {
 			h := c.Hist[hi]
 			switch h.Kind {
